@@ -26,6 +26,7 @@ type Event struct {
 	Fam    int           `json:"fam,omitempty"`    // REQUESTED-ADDRESS-FAMILY 4/6, 0 = absent
 	TCP    bool          `json:"tcp,omitempty"`
 	As     string        `json:"as,omitempty"` // authenticate as this user instead of the client's own
+	Even   bool          `json:"even,omitempty"` // Allocate with EVEN-PORT (R bit set): the manager probes for an even port first
 	Fail   string        `json:"fail,omitempty"` // Allocate: "gen" = the relay address generator fails, "quota" = the quota handler refuses
 }
 
@@ -48,6 +49,9 @@ func (e Event) Class() string {
 		}
 		if e.Fail != "" {
 			s += ",refused-by-" + e.Fail
+		}
+		if e.Even {
+			s += ",even-port"
 		}
 
 		return s + ")"
@@ -194,6 +198,9 @@ func (x *Exec) Apply(ev Event) *Viol { //nolint:gocyclo,cyclop,maintidx,gocognit
 				b.U32(wire.AttrRequestedFamily, 0x01000000)
 			} else if ev.Fam == 6 {
 				b.U32(wire.AttrRequestedFamily, 0x02000000)
+			}
+			if ev.Even {
+				b.Attr(wire.AttrEvenPort, []byte{0x80})
 			}
 		})
 		x.Trace = append(x.Trace, ev.String()+"->"+respStr(res))
